@@ -7,6 +7,8 @@ import (
 	"sort"
 
 	"pgregory.net/rapid"
+	"verif/harness/lib/refstat"
+	"verif/harness/lib/vcase"
 )
 
 const c12Eps = 1.0 / (1 << 53) // unit round-off of float64
@@ -137,4 +139,47 @@ func c12Ulp(x float64) float64 {
 		return math.SmallestNonzeroFloat64
 	}
 	return math.Nextafter(x, math.Inf(1)) - x
+}
+
+// ---------------------------------------------------------------------------
+// Finding C12-a (booked only while it is listed in known_findings.json).
+//
+// TDist.CDF evaluates I_q(ν/2, ½) at q = ν/(ν+x²). For x² ≪ ν that quotient is
+// rounded to a multiple of 2^-53 next to 1 before the incomplete beta function
+// sees it, so the implemented F is a staircase around x = 0 (F(x) = ½ exactly
+// for |x| < 1.05e-8·√ν; absolute error up to about 4e-9·√ν). The signature is
+// exact: the implemented value is the textbook F at the perturbed argument
+// x' = √(ν(1−q)/q) with q = fl(ν/(ν+fl(x²))), to the ordinary tolerance.
+
+// c12StairModel returns the value finding C12-a predicts for TDist{ν}.CDF(x).
+// applies is false outside the finding's region (x = 0, non-finite, x² ≥ ν).
+func c12StairModel(nu, x float64) (f float64, applies bool) {
+	if x == 0 || !c12Finite(x) || !(x*x < nu) {
+		return 0, false
+	}
+	q := nu / (nu + x*x)
+	if q == 1 {
+		return 0.5, true
+	}
+	xp := math.Sqrt(nu * (1 - q) / q) // 1−q is exact (q ≥ ½)
+	f, ok := refstat.TCDF(nu, math.Copysign(xp, x))
+	return f, ok
+}
+
+// c12TAgree reports whether the implemented t distribution value f at (ν,x)
+// agrees with the reference ref to tol, or — only while C12-a is a listed
+// known finding — with the value the finding's signature predicts (the case
+// is then booked under the finding).
+func c12TAgree(v *vcase.Verdict, nu, x, f, ref, tol float64) bool {
+	if math.Abs(f-ref) <= tol {
+		return true
+	}
+	if !vcase.KnownListed("C12-a") {
+		return false
+	}
+	if m, ok := c12StairModel(nu, x); ok && math.Abs(f-m) <= tol {
+		v.KnownHit("C12-a")
+		return true
+	}
+	return false
 }
